@@ -5,7 +5,8 @@ import common, docrun, gen, pool, docs, drv
 
 M = 2 ** 256
 THEOREMS = ["Plain.hexVal_hexStr", "Plain.decVal_decStr", "Plain.hexVal_zeros", "Plain.decVal_zeros", "Plain.hexVal_0x",
-            "Plain.hexVal_hexStrU", "Plain.spelling_value", "Plain.parse_step", "Plain.parse_print", "Plain.opOf_num_value"]
+            "Plain.hexVal_hexStrU", "Plain.spelling_value", "Plain.parse_step", "Plain.parse_print", "Plain.opOf_num_value",
+            "Json.toJson_build", "Json.buildAll_toJson", "Json.roundtrip_stable", "Json.buildAll_toJson_off"]
 
 PLAIN_OPS = ["ADD", "MUL", "SUB", "MSTORE", "MLOAD", "SSTORE", "SLOAD", "KECCAK256", "JUMP", "JUMPI", "JUMPDEST", "STOP", "RETURN",
              "REVERT", "POP", "DUP1", "DUP16", "SWAP1", "SWAP16", "ISZERO", "CALLVALUE", "CALLDATALOAD", "GAS", "LOG2", "NOT", "EQ"]
@@ -102,6 +103,8 @@ def run(tier):
         text = d if isinstance(d, str) else json.dumps(d)
         for p0 in (True, False):
             tasks.append({"kind": "json_roundtrip", "text": text, "push0": p0, "name": name, "timeout": 200})
+            if len(text) < 400000:
+                tasks.append({"kind": "json_items", "text": text, "push0": p0, "name": name, "timeout": 200})
     # (b)/(c) plain text
     blocks = gen.blocks(sd * 19 + 8, 300 if tier == "quick" else 5000, split_prob=0.2, terminal_prob=0.2)
     consts = gen.BOUNDARY + [rng.randrange(0, M) for _ in range(40 if tier == "quick" else 2000)] + list(range(0, 40)) + [255, 256, 65535, 65536]
@@ -110,7 +113,7 @@ def run(tier):
         tasks.append({"kind": "plain_roundtrip", "texts": blocks, "push0": p0, "timeout": 200})
         tasks.append({"kind": "plain_roundtrip", "texts": [t for t, _ in sp], "push0": p0, "spell": True, "timeout": 200})
     # (d) the plain-text reader against its Lean model (Models/Plain.lean), text by text
-    po = common.proof_obligations("GasolVerif.Proofs.PlainSound", THEOREMS)
+    po = common.proof_obligations("GasolVerif.Proofs.PlainSound,GasolVerif.Proofs.JsonItemSound", THEOREMS)
     violations += [{"kind": "broken-proof-obligation", "what": b, "no_failing_input": True, "input": b} for b in po["broken"]]
     texts = plain_corpus() + [token_stream(rng, i % 4 == 0) for i in range(1500 if tier == "quick" else 40000)]
     CH = 500
@@ -133,6 +136,32 @@ def run(tier):
         if a != b:
             mism.append((tx, a, b))
     print_items = []
+    # (a') the item reader / writer against Models/JsonItem.lean, section by section (theorems buildAll_toJson, roundtrip_stable)
+    jreqs, jmeta = [], []
+    for t, r, st in res:
+        if t["kind"] != "json_items":
+            continue
+        if st != "ok" or r is None or "harness_error" in (r or {}):
+            raise common.MachineryError("worker failed on json_items: %s %s" % (st, (r or {}).get("harness_error")))
+        for sec in r["sections"]:
+            if "skipped" in sec:
+                c["item-sections-outside-the-model"] += 1
+                continue
+            jreqs.append("JSONITEMS\t%s\t%s" % ("1" if t["push0"] else "0", sec["items"]))
+            jmeta.append((t, sec))
+    for o, (t, sec) in zip(drv.batch(jreqs), jmeta):
+        c["item-sections"] += 1
+        c["items-read-and-written"] += sec["n"]
+        if o.startswith("error"):
+            raise common.MachineryError("driver JSONITEMS: " + o[:200])
+        if o != sec["real"]:
+            a, b = o.split("\x1e"), sec["real"].split("\x1e")
+            k = next((i for i in range(min(len(a), len(b))) if a[i] != b[i]), min(len(a), len(b)))
+            violations.append({"kind": "item-reader-differs-from-model", "input": "%s %s" % (t["name"], "/".join(sec["path"])), "no_failing_input": True,
+                               "what": "correspondence Models/JsonItem.lean <-> build_asm_bytecode/to_json broken on %s section %s (push0=%s) near element %d: "
+                                       "model %r, code %r %s" % (t["name"], "/".join(sec["path"]), t["push0"], k, (a[k] if k < len(a) else "")[:120],
+                                                                 (b[k] if k < len(b) else "")[:120], sec.get("exception", ""))})
+    res = [x for x in res if x[0]["kind"] != "json_items"]
     for t, r, st in res:
         if st != "ok" or r is None or "harness_error" in (r or {}):
             raise common.MachineryError("worker failed on %s: %s %s" % (t["kind"], st, (r or {}).get("harness_error")))
